@@ -1,3 +1,43 @@
 """contract id -> descriptors of the bounded concrete search (see pyvc.contract.apply_bounded_registry).  Pure data."""
 BOUNDED = {
 }
+
+# ---- part: tags (rt/xgens_tags.py, rt/xadapt_tags.py, views in rt/views.py) -- C01 per-tag rules, C03 resolution, C04.tag_eq, C13
+BOUNDED.update({
+    "C04.tag_eq": {"cases": "rt.xgens_tags.tag_eq_cases", "adapter": "rt.xadapt_tags.tag_eq", "share": True},
+    "C13.set_schema_prefix": {"cases": "rt.xgens_tags.set_prefix_cases", "adapter": "rt.xadapt_tags.set_prefix", "share": True},
+    "C01.check_tag_requires_child": {"cases": "rt.xgens_tags.one_tag_cases", "adapter": "rt.xadapt_tags.tag_rule", "share": True},
+    "C01.check_tag_exists_in_schema": {"cases": "rt.xgens_tags.one_tag_cases", "adapter": "rt.xadapt_tags.tag_rule", "share": True},
+    "C01.check_tag_is_deprecated": {"cases": "rt.xgens_tags.deprecated_cases", "adapter": "rt.xadapt_tags.tag_validator_method", "share": True},
+    "C01.check_for_placeholder": {"cases": "rt.xgens_tags.placeholder_cases", "adapter": "rt.xadapt_tags.tag_rule", "share": True},
+    "C01.check_invalid_chars": {"cases": "rt.xgens_tags.invalid_chars_cases", "adapter": "rt.xadapt_tags.invalid_chars", "share": True},
+    "C01.check_tag_level_issue": {"cases": "rt.xgens_tags.tag_level_cases", "adapter": "rt.xadapt_tags.tag_level", "share": True},
+    "C01.run_individual_tag_validators": {"cases": "rt.xgens_tags.individual_cases", "adapter": "rt.xadapt_tags.tag_validator_method", "share": True},
+    "C03.find_tag_entry": {"cases": "rt.xgens_tags.find_tag_entry_cases", "adapter": "rt.xadapt_tags.find_entry", "share": True},
+    "C03.find_tag_subfunction": {"cases": "rt.xgens_tags.find_sub_cases", "adapter": "rt.xadapt_tags.find_sub", "share": True},
+    "C13.check_invalid_prefix_issues": {"cases": "rt.xgens_tags.prefix_cases", "adapter": "rt.xadapt_tags.tag_rule", "share": True},
+    "C13.schema_for_namespace": {"cases": "rt.xgens_tags.schema_for_namespace_cases", "adapter": "rt.xadapt_tags.method", "share": True},
+    "C13.group_find_tag_entry": {"cases": "rt.xgens_tags.group_find_cases", "adapter": "rt.xadapt_tags.find_entry", "share": True},
+})
+
+# ---- part: misc (rt/xgens_misc.py, rt/xadapt_misc.py, views in rt/views.py) -- C07 span, C09 def contents, C10, C11, C12 decoration, C14 units, C15, C16
+# (C14.conversion_factor is deliberately absent: 'nan' mismatch between contract and code, see rt/xgens_misc.py:FACTOR_TEXTS_NAN)
+BOUNDED.update({
+    "C11.get_conversion_factor": {"cases": "rt.xgens_misc.conversion_factor_lookup_cases", "adapter": "rt.xadapt_misc.plain", "share": True},
+    "C11.get_derivative_unit_entry": {"cases": "rt.xgens_misc.derivative_unit_entry_cases", "adapter": "rt.xadapt_misc.plain", "share": True},
+    "C11.get_tag_units_portion": {"cases": "rt.xgens_misc.tag_units_portion_cases", "adapter": "rt.xadapt_misc.plain", "share": True},
+    "C11.value_as_default_unit": {"cases": "rt.xgens_misc.default_unit_cases", "adapter": "rt.xadapt_misc.plain", "share": True},
+    "C14.unit_exists": {"cases": "rt.xgens_misc.unit_exists_cases", "adapter": "rt.xadapt_misc.issues", "share": True},
+    "C15.has_same_tags": {"cases": "rt.xgens_misc.search_result_pairs", "adapter": "rt.xadapt_misc.search_result", "share": True},
+    "C15.merge_and_result": {"cases": "rt.xgens_misc.search_result_pairs", "adapter": "rt.xadapt_misc.search_result", "share": True},
+    "C15.search_result_init": {"cases": "rt.xgens_misc.search_result_init_cases", "adapter": "rt.xadapt_misc.search_result", "share": True},
+    "C12.error_handler_init": {"cases": "rt.xgens_misc.error_handler_init_cases", "adapter": "rt.xadapt_misc.plain", "share": True},
+    "C16.is_sidecar_for": {"cases": "rt.xgens_misc.sidecar_for_cases", "adapter": "rt.xadapt_misc.plain", "share": True},
+    "C16.get_sidecar_for_obj": {"cases": "rt.xgens_misc.sidecar_dir_cases", "adapter": "rt.xadapt_misc.plain", "share": True},
+    "C10.handle_onset_or_offset": {"cases": "rt.xgens_misc.onset_handler_cases", "adapter": "rt.xadapt_misc.onset_handler", "share": True},
+    "C10.validate_temporal_relations": {"cases": "rt.xgens_misc.temporal_relation_cases", "adapter": "rt.xadapt_misc.issues", "share": True},
+    "C12.update_error_with_char_pos": {"cases": "rt.xgens_misc.issue_decoration_cases", "adapter": "rt.xadapt_misc.decorate_one", "share": True},
+    "C12.add_context_and_filter": {"cases": "rt.xgens_misc.issue_list_cases", "adapter": "rt.xadapt_misc.decorate_list", "share": True},
+    "C09.validate_def_contents": {"cases": "rt.xgens_misc.def_content_cases", "adapter": "rt.xadapt_misc.issues", "share": True},
+    "C07.get_org_span_from_strings": {"cases": "rt.xgens_misc.org_span_cases", "adapter": "rt.xadapt_misc.plain", "share": True},
+})
